@@ -78,6 +78,27 @@ func outcomeTok(a Act) string {
 	return strconv.FormatInt(a.Lat, 10)
 }
 
+// scriptTok: the client's behaviour relative to its probe's own start, for the model's timed round.
+func scriptTok(a Act) string {
+	switch {
+	case a.OK:
+		return strconv.FormatInt(a.Lat, 10)
+	case a.Mode == 3:
+		return "f"
+	default:
+		return "x" + strconv.FormatInt(a.Lat, 10)
+	}
+}
+
+// effConcurrency: the documented meaning of the concurrency field (0 = default 32), capped by the group size.
+func (c Case) effConcurrency() int {
+	k := c.Concurrency
+	if k <= 0 {
+		k = 32
+	}
+	return min(k, c.N)
+}
+
 // ---------- the property oracle (from the statement) ----------
 
 const (
